@@ -109,14 +109,6 @@ def src(ctx, fi, node):
 
 
 def control_model(source, filename="construct/core.py"):
-    """Build a throw-away Model from an in-memory snippet (positive controls)."""
+    """Build a throw-away in-memory Model from a snippet (positive controls)."""
     from ..model import Model
-    import tempfile, os, shutil
-    d = tempfile.mkdtemp(prefix="sa_ctl_")
-    try:
-        os.makedirs(os.path.join(d, "construct"))
-        with open(os.path.join(d, filename), "w") as fh:
-            fh.write(source)
-        return Model(d)
-    finally:
-        shutil.rmtree(d, ignore_errors=True)
+    return Model.from_sources({filename: source})
